@@ -1258,6 +1258,18 @@ def query7(ctx) -> List[Ob]:
     dparam = im.params[0].arg
     key = "immediate dominators: strict dominators, minus the strict dominators of each of them; exactly one remains"
     strict = [s for s in im.node.body if isinstance(s, ast.Assign) and isinstance(s.value, ast.DictComp)]
+    if not strict:
+        # the same table filled by a loop:  I = {}; for k, v in D.items(): I[k] = v - {k}
+        for lp0 in [s for s in im.node.body if isinstance(s, ast.For)]:
+            if _strip_order(lp0.iter) == f"{dparam}.items()" and isinstance(lp0.target, ast.Tuple) and len(lp0.target.elts) == 2 and len(lp0.body) == 1 and isinstance(lp0.body[0], ast.Assign) and isinstance(lp0.body[0].targets[0], ast.Subscript) and not lp0.orelse:
+                a0 = lp0.body[0]
+                tab = a0.targets[0].value
+                inits = [s for s in im.node.body if isinstance(s, ast.Assign) and A.unparse(s.targets[0]) == A.unparse(tab) and isinstance(s.value, ast.Dict) and not s.value.keys and im.node.body.index(s) < im.node.body.index(lp0)]
+                if inits:
+                    pseudo = ast.Assign(targets=[tab], value=ast.DictComp(key=a0.targets[0].slice, value=a0.value, generators=[ast.comprehension(target=lp0.target, iter=lp0.iter, ifs=[], is_async=0)]), lineno=lp0.lineno)
+                    ast.copy_location(pseudo, lp0)
+                    ast.fix_missing_locations(pseudo)
+                    strict = [pseudo]
     good = False
     why = "the table of strict dominators '{k: v - {k} ...}' is not built"
     if strict:
